@@ -209,7 +209,8 @@ def check_rst(report):
         r.check(not later, p, g.lineno, f"{what} guard followed by another modification of {A} (line {later[0].lineno if later else 0})",
                 "the guard must come after the last modification of the returned text (wrapping strips whitespace and can expose a quote)")
     # the plain-text path wraps with the requested geometry
-    node, _ = find_match("wrap(text, indent=indent, offset=indent + 3, width=width - indent)", fn)
+    from ..pymodel import fmatch
+    node, _, _f = fmatch(m, "wrap(text, indent=indent, offset=indent + 3, width=width - indent)", fi, keep={"wrap"})
     r.instance("plain path")
     r.check(node is not None, p, fn.lineno, "wrap(text, indent=indent, offset=indent + 3, width=width - indent)", "the plain-text path re-flows with the requested width and indent")
 
@@ -293,12 +294,18 @@ def check_wrap_and_doc(report):
                  "without break_long_words=False / break_on_hyphens=False a long token (URL, identifier) is split and the words of the comment change")
     r5 = report.rule("C20.5", "Metadata.doc prefers leading, then trailing, then detached comments, else ''", floor=1)
     fi = m.func("gapic.schema.metadata.Metadata.doc")
-    body = [s for s in fi.node.body if not (isinstance(s, ast.Expr) and isinstance(s.value, ast.Constant))]
-    order = [ast.unparse(s.test) for s in body if isinstance(s, ast.If)]
-    r5.instance(order)
-    r5.check(order == ["self.documentation.leading_comments", "self.documentation.trailing_comments", "self.documentation.leading_detached_comments"]
-             and isinstance(body[-1], ast.Return) and ast.unparse(body[-1].value) == "''", fi.module.path, fi.node.lineno, str(order),
-             "comment selection order leading > trailing > detached > ''")
+    from ..pymodel import nreturn, tables_equivalent
+    from ..pynorm import norm_expr
+    e = nreturn(m, fi)
+    D_ = "self.documentation"
+    ref = norm_expr(ast.parse(f"{D_}.leading_comments.strip() if {D_}.leading_comments else ({D_}.trailing_comments.strip() if {D_}.trailing_comments "
+                              f"else ('\\n\\n'.join({D_}.leading_detached_comments) if {D_}.leading_detached_comments else ''))", mode="eval").body)
+    r5.instance("leading > trailing > detached > ''")
+    r5.need(e is not None, "Metadata.doc", "the function does not reduce to a decision table; the rule cannot judge it")
+    ok, cex = tables_equivalent(e, ref)
+    r5.need(ok is not None, "Metadata.doc", str(cex))
+    r5.check(ok, fi.module.path, fi.node.lineno, f"Metadata.doc differs from the reference selection: {cex}",
+             "comment selection order leading > trailing > detached > '' (leading and trailing stripped; detached comments joined by blank lines)")
 
 
 def check_wrap_slice(report):
